@@ -29,6 +29,34 @@ def _agg_value(rv, var):
     return (rv["variant"], child)
 
 
+def _field_proj(place):
+    """(local, i) for a place `local.i` (one plain field projection: tuple / closure environment)"""
+    p = place["p"]
+    if len(p) == 1 and p[0]["k"] == "field":
+        return place["l"], p[0].get("i")
+    return None
+
+
+def _operand_value(op, var):
+    """abstract value of an operand: a whole local, the payload `(x as V).0`, or a field `x.i` of a known tuple / environment"""
+    if op["k"] not in ("move", "copy"):
+        return None
+    if _whole(op):
+        return var.get(op["place"]["l"])
+    pp = _payload_proj(op["place"])
+    if pp is not None:
+        sv = var.get(pp[0])
+        if sv is not None and sv[0] == pp[1]:
+            return sv[1]
+        return None
+    fp = _field_proj(op["place"])
+    if fp is not None:
+        sv = var.get(fp[0])
+        if sv is not None and sv[0] == "<tuple>" and fp[1] is not None and fp[1] < len(sv[1]):
+            return sv[1][fp[1]]
+    return None
+
+
 def _payload_proj(place):
     """(local, variant) for a place `(local as Variant).0`"""
     p = place["p"]
@@ -79,6 +107,16 @@ def always_variant(view, target_bb, want=("Some", "Ok")):
                 if rv["k"] == "agg" and rv.get("ak") == "adt" and rv.get("variant"):
                     var[l] = _agg_value(rv, var)
                     ref.pop(l, None)
+                elif rv["k"] == "agg" and rv.get("ak") in ("tuple", "closure"):
+                    var[l] = ("<tuple>", tuple(_operand_value(o, var) for o in rv["ops"]))
+                    ref.pop(l, None)
+                elif rv["k"] == "use" and rv["op"]["k"] in ("move", "copy") and _field_proj(rv["op"]["place"]) is not None:
+                    val = _operand_value(rv["op"], var)
+                    if val is not None:
+                        var[l] = val
+                    else:
+                        var.pop(l, None)
+                    ref.pop(l, None)
                 elif rv["k"] == "use" and rv["op"]["k"] in ("move", "copy") and _payload_proj(rv["op"]["place"]) is not None:
                     # `x = move (y as V).0`
                     src_l, vname = _payload_proj(rv["op"]["place"])
@@ -119,8 +157,8 @@ def always_variant(view, target_bb, want=("Some", "Ok")):
                 verdict["reached"] = True
                 a = t["args"][0] if k == "call" and t["args"] else None
                 ok = False
-                if a is not None and _whole(a):
-                    ok = (var.get(a["place"]["l"]) or (None,))[0] in want
+                if a is not None:
+                    ok = (_operand_value(a, var) or (None,))[0] in want
                 if not ok:
                     verdict["bad"] = True
                 return
